@@ -28,10 +28,12 @@ PROPS = {
     ),
     "C08": dict(
         level="exploration",
-        modules=["specs.rbcommon"],
+        modules=["specs.rbcommon", "specs.ordercfg"],
         bounded=[("bounded.c08", "run")],
         assumes=["A3", "A6", "A9"],
-        trusted=["Orderer.get_order / order_config / PatchTree.sort are not under a discharged contract yet (bounded only)"],
+        trusted=["Orderer.get_order (assumed contract: a function of rules, vendor, row and direction), make_patch's sort_key and "
+                 "PatchTree.sort are not under a discharged contract (bounded only); Orderer.order_config is proved relative to "
+                 "get_order, the stable-sort model of sorted() and left-to-right odict(pairs)"],
     ),
     "C09": dict(
         level="exploration",
